@@ -7,6 +7,7 @@ import (
 	"strings"
 	"sync"
 	"sync/atomic"
+	"time"
 
 	"verifkit/prng"
 	"verifkit/smtpd"
@@ -144,12 +145,20 @@ type hop struct {
 
 func newHop(label string, lmtp, utf8 bool, cur *atomic.Int32, plans map[int]*hopPlan) (*hop, error) {
 	h := &hop{label: label, utf8: utf8, lmtp: lmtp, cur: cur, plans: plans, mailSeen: map[int]int{}, seenTxn: map[[2]int]bool{}}
-	srv, err := smtpd.New(smtpd.Config{LMTP: lmtp, SMTPUTF8: utf8, PIPELINING: true, EightBitMIME: true, Script: h.script})
-	if err != nil {
-		return nil, err
+	// The ephemeral port range is shared with every other check running on the
+	// machine; when it is exhausted (sockets in TIME_WAIT) binding fails for a
+	// while. Wait it out; the caller turns a final failure into "inconclusive".
+	var srv *smtpd.Server
+	var err error
+	for attempt := 0; attempt < 60; attempt++ {
+		srv, err = smtpd.New(smtpd.Config{LMTP: lmtp, SMTPUTF8: utf8, PIPELINING: true, EightBitMIME: true, Script: h.script})
+		if err == nil {
+			h.srv = srv
+			return h, nil
+		}
+		time.Sleep(time.Duration(200+100*attempt) * time.Millisecond)
 	}
-	h.srv = srv
-	return h, nil
+	return nil, err
 }
 
 func (h *hop) script(ev smtpd.Event) *smtpd.Action {
